@@ -96,93 +96,128 @@ def _where(exc: BaseException) -> str:
     return ''
 
 
-def explore_harness(hi: int, h: Harness, pool: Any, deadline: float) -> dict:
-    """Explore one harness to exhaustion (or the deadline) on the pool."""
-    agg = {'name': h.name, 'bound': h.bound, 'paths': 0, 'proved': 0, 'cex': [],
-           'samples': [], 'bound_exceeded': 0, 'errors': [], 'exhausted': True,
-           'feasibility_queries': 0, 'proof_unsat': 0, 'proof_sat': 0,
-           'proof_unknown': 0, 'solver_s': 0.0, 'sites': {}, 'vacuous': 0,
-           'bound_details': {}, 'infeasible_prefixes': 0}
-    t0 = time.time()
-    queue: list[list] = [[]]
-    inflight = []
-    first = True
+def _new_agg(h: Harness) -> dict:
+    return {'name': h.name, 'bound': h.bound, 'paths': 0, 'proved': 0, 'cex': [],
+            'samples': [], 'bound_exceeded': 0, 'errors': [], 'exhausted': True,
+            'feasibility_queries': 0, 'proof_unsat': 0, 'proof_sat': 0,
+            'proof_unknown': 0, 'solver_s': 0.0, 'sites': {}, 'vacuous': 0,
+            'bound_details': {}, 'infeasible_prefixes': 0, 'wall_s': 0.0,
+            '_open': 0, '_t0': None}
+
+
+def explore_all(hs: list, pool: Any, deadline: float) -> list:
+    """Explore every harness to exhaustion (or the deadline) on one shared
+    pool: a global work queue of (harness, decision prefix) subtrees."""
+    from collections import deque
+    aggs = [_new_agg(h) for h in hs]
+    queue: Any = deque((hi, [], 24) for hi in range(len(hs)))
+    inflight: list = []
+    verbose = bool(os.environ.get('VERIF_VERBOSE'))
     while queue or inflight:
         if time.time() > deadline:
-            agg['exhausted'] = False
-            agg['errors'].append('time budget exhausted before the path tree was')
+            for agg in aggs:
+                if agg['_open'] or any(q[0] == aggs.index(agg) for q in queue):
+                    agg['exhausted'] = False
+                    agg['errors'].append('time budget exhausted before the path tree was')
             break
-        while queue and len(inflight) < NPROC * 2:
-            prefix = queue.pop()
-            budget = 24 if first else h.task_budget
-            first = False
-            inflight.append(pool.apply_async(_worker, ((hi, prefix, budget, deadline),)))
-            if budget == 24:
-                break
+        while queue and len(inflight) < NPROC * 3:
+            hi, prefix, budget = queue.popleft()
+            agg = aggs[hi]
+            if agg['_t0'] is None:
+                agg['_t0'] = time.time()
+            agg['_open'] += 1
+            inflight.append((hi, pool.apply_async(_worker, ((hi, prefix, budget, deadline),))))
         still = []
         progressed = False
-        for r in inflight:
-            if r.ready():
-                progressed = True
-                out = r.get()
-                st = out['stats']
-                agg['paths'] += st['paths']
-                agg['proved'] += out['proved']
-                agg['cex'].extend(out['cex'])
-                if len(agg['samples']) < h.max_samples:
-                    agg['samples'].extend(out['samples'])
-                agg['bound_exceeded'] += out['bound']
-                agg['errors'].extend(out['errors'])
-                for k in ('feasibility_queries', 'proof_unsat', 'proof_sat',
-                          'proof_unknown', 'infeasible_prefixes'):
-                    agg[k] += st[k]
-                agg['solver_s'] += st['solver_s']
-                agg['vacuous'] += st.get('vacuous', 0)
-                for k, v in st['sites'].items():
-                    agg['sites'][k] = agg['sites'].get(k, 0) + v
-                for k, v in out['bound_details'].items():
-                    agg['bound_details'][k] = agg['bound_details'].get(k, 0) + v
-                # shallow (big) subtrees last so they are popped first
-                queue.extend(sorted(out['pending'], key=lambda p: -len(p)))
-            else:
-                still.append(r)
+        for hi, r in inflight:
+            if not r.ready():
+                still.append((hi, r))
+                continue
+            progressed = True
+            agg = aggs[hi]
+            h = hs[hi]
+            out = r.get()
+            st = out['stats']
+            agg['_open'] -= 1
+            agg['paths'] += st['paths']
+            agg['proved'] += out['proved']
+            agg['cex'].extend(out['cex'])
+            if len(agg['samples']) < h.max_samples:
+                agg['samples'].extend(out['samples'])
+            agg['bound_exceeded'] += out['bound']
+            agg['errors'].extend(out['errors'])
+            for k in ('feasibility_queries', 'proof_unsat', 'proof_sat',
+                      'proof_unknown', 'infeasible_prefixes'):
+                agg[k] += st[k]
+            agg['solver_s'] += st['solver_s']
+            agg['vacuous'] += st.get('vacuous', 0)
+            for k, v in st['sites'].items():
+                agg['sites'][k] = agg['sites'].get(k, 0) + v
+            for k, v in out['bound_details'].items():
+                agg['bound_details'][k] = agg['bound_details'].get(k, 0) + v
+            # leftover subtrees go to the front (finish a harness before starting later ones);
+            # shallow (big) subtrees first
+            for pfx in sorted(out['pending'], key=len, reverse=True):
+                queue.appendleft((hi, pfx, h.task_budget))
+            if agg['_open'] == 0 and not out['pending'] and \
+                    not any(q[0] == hi for q in list(queue)[:64]):
+                agg['wall_s'] = round(time.time() - agg['_t0'], 2)
+                if verbose:
+                    print('  %-44s paths=%d cex=%d bound=%d wall=%.1fs solver=%.1fs err=%d' % (
+                        agg['name'], agg['paths'], len(agg['cex']), agg['bound_exceeded'],
+                        agg['wall_s'], agg['solver_s'], len(agg['errors'])), flush=True)
         inflight = still
         if not progressed:
-            time.sleep(0.005)
-    if inflight:
-        agg['exhausted'] = False
-    if agg['errors']:
-        agg['exhausted'] = False
-    agg['wall_s'] = round(time.time() - t0, 2)
-    agg['solver_s'] = round(agg['solver_s'], 2)
-    return agg
+            time.sleep(0.003)
+    for agg in aggs:
+        if agg['errors']:
+            agg['exhausted'] = False
+        if agg['_t0'] is not None and not agg['wall_s']:
+            agg['wall_s'] = round(time.time() - agg['_t0'], 2)
+        agg['solver_s'] = round(agg['solver_s'], 2)
+        del agg['_open'], agg['_t0']
+    return aggs
 
 
 # ------------------------------------------------------------------ replay
 def replay_batch(check_id: str, items: list[dict]) -> list[dict]:
-    """Run ``checks.<id>.replay`` on plain (uninstrumented) pymap in a
-    subprocess.  items: [{'harness':..., 'witness':...}]"""
+    """Run ``checks.<id>.replay`` on plain (uninstrumented) pymap in
+    subprocesses (chunks in parallel).  items: [{'harness':..., 'witness':...}]"""
     if not items:
         return []
     scratch = os.environ.get('VERIF_SCRATCH') or '/var/tmp/pymap-verif-%d' % os.getpid()
     os.makedirs(scratch, exist_ok=True)
-    inp = os.path.join(scratch, 'replay-in-%s.json' % check_id)
-    outp = os.path.join(scratch, 'replay-out-%s.json' % check_id)
-    with open(inp, 'w') as f:
-        json.dump(items, f)
+    nchunks = max(1, min(NPROC, len(items) // 8 or 1))
+    chunks = [items[i::nchunks] for i in range(nchunks)]
     env = dict(os.environ)
     env['PYTHONPATH'] = '/repo:' + VERIF
     env['PYTHONDONTWRITEBYTECODE'] = '1'
+    procs = []
+    files = []
     try:
-        p = subprocess.run([sys.executable, '-m', 'checks._replay_main',
-                            check_id, inp, outp], env=env, cwd=VERIF,
-                           capture_output=True, text=True, timeout=1800)
-        if p.returncode != 0:
-            raise RuntimeError('replay subprocess failed: %s' % p.stderr[-2000:])
-        with open(outp) as f:
-            return json.load(f)
+        for ci, chunk in enumerate(chunks):
+            inp = os.path.join(scratch, 'replay-in-%s-%d.json' % (check_id, ci))
+            outp = os.path.join(scratch, 'replay-out-%s-%d.json' % (check_id, ci))
+            files += [inp, outp]
+            with open(inp, 'w') as f:
+                json.dump(chunk, f)
+            procs.append((subprocess.Popen(
+                [sys.executable, '-m', 'checks._replay_main', check_id, inp, outp],
+                env=env, cwd=VERIF, stdout=subprocess.PIPE, stderr=subprocess.PIPE, text=True), outp))
+        results_chunks = []
+        for p, outp in procs:
+            _, err = p.communicate(timeout=3600)
+            if p.returncode != 0:
+                raise RuntimeError('replay subprocess failed: %s' % err[-2000:])
+            with open(outp) as f:
+                results_chunks.append(json.load(f))
+        out: list = [None] * len(items)
+        for ci, res in enumerate(results_chunks):
+            for j, r in enumerate(res):
+                out[ci + j * nchunks] = r
+        return out
     finally:
-        for pth in (inp, outp):
+        for pth in files:
             try:
                 os.unlink(pth)
             except OSError:
@@ -241,11 +276,7 @@ def run_check(mod: Any, tier: str) -> int:
     ctx = mp.get_context('fork')
     results = []
     with ctx.Pool(NPROC) as pool:
-        for hi, h in enumerate(hs):
-            results.append(explore_harness(hi, h, pool, deadline))
-            if os.environ.get('VERIF_VERBOSE'):
-                r = results[-1]
-                print('  %-40s paths=%d cex=%d bound=%d wall=%.1fs solver=%.1fs err=%d' % (r['name'], r['paths'], len(r['cex']), r['bound_exceeded'], r['wall_s'], r['solver_s'], len(r['errors'])), flush=True)
+        results = explore_all(hs, pool, deadline)
     # ---------------- counterexamples: replay on uninstrumented code
     known, fixed = load_known(check_id)
     to_replay = []
@@ -294,7 +325,8 @@ def run_check(mod: Any, tier: str) -> int:
             known_hits[kf]['count'] += 1
         else:
             violations.append({'harness': item['harness'], 'witness': item['witness'],
-                               'detail': res.get('detail'), 'classified_as': kf})
+                               'detail': res.get('detail'), 'classified_as': kf,
+                               'category': res.get('category') or kf or item['harness']})
     # ---------------- vacuity / reachability
     for h, r in zip(hs, results):
         for s in h.expect_sites:
@@ -312,6 +344,11 @@ def run_check(mod: Any, tier: str) -> int:
             check_id, hit['entry']['what'], kf, hit['count'],
             json.dumps(hit['example'])[:200]))
     shown = 0
+    _seen_cat: dict = {}
+    for v in violations:
+        _seen_cat[v['category']] = _seen_cat.get(v['category'], 0) + 1
+        v['_rank'] = _seen_cat[v['category']]
+    violations.sort(key=lambda v: v['_rank'])
     for v in violations:
         hsh = hashlib.sha256(json.dumps(v['witness'], sort_keys=True, default=str).encode()).hexdigest()[:12]
         path = os.path.join(VERIF, 'replays', '%s-%s.json' % (check_id, hsh))
@@ -324,6 +361,12 @@ def run_check(mod: Any, tier: str) -> int:
                 v['harness'], json.dumps(v['witness'], default=str)[:300], str(v['detail'])[:300]))
         shown += 1
     if violations:
+        cats: dict = {}
+        for v in violations:
+            cats.setdefault(v['category'], []).append(v)
+        for c, vs in sorted(cats.items(), key=lambda kv: -len(kv[1])):
+            print('  violation category %-60s %5d path(s), e.g. %s' % (
+                c, len(vs), json.dumps(vs[0]['witness'], default=str)[:160]))
         if shown > 25:
             print('  (%d further violating paths not written)' % (shown - 25))
         rc = 1
